@@ -80,6 +80,21 @@ func readProgress(path string) (unit int, k int64, ok bool) {
 	return
 }
 
+// inExec reports whether the worker is inside an execution of the code under test (last byte of the
+// progress file).
+func inExec(path string) bool {
+	f, err := os.Open(path)
+	if err != nil {
+		return false
+	}
+	defer f.Close()
+	var b [1]byte
+	if n, _ := f.ReadAt(b[:], progLen-1); n != 1 {
+		return false
+	}
+	return b[0] == 1
+}
+
 func readProgressEP(path string) (unit int, k int64, ep string, ok bool) {
 	f, err := os.Open(path)
 	if err != nil {
@@ -90,7 +105,7 @@ func readProgressEP(path string) (unit int, k int64, ep string, ok bool) {
 	if n, _ := f.ReadAt(b[:], 0); n < 16 {
 		return 0, 0, "", false
 	}
-	for i := 16; i < progLen && b[i] != 0; i++ {
+	for i := 16; i < progLen-1 && b[i] != 0; i++ {
 		ep += string(rune(b[i]))
 	}
 	u := uint64(0)
@@ -227,6 +242,7 @@ func (s *sup) run(capKB int, stderr, progress string, budget time.Duration, args
 	defer tick.Stop()
 	lastU, lastK := -1, int64(-1)
 	lastChange := time.Now()
+	outsideSince := time.Now()
 	var cpuAtTwoThirds int64 = -2
 	var rssAtTwoThirds int64 = -1
 	for {
@@ -249,7 +265,25 @@ func (s *sup) run(capKB int, stderr, progress string, budget time.Duration, args
 			text := head(stderr, 1<<20)
 			return exitInfo{class: classifyStderr(text, ws, ws.Exited()), stderr: clip(text, 6000), exitCode: ws.ExitStatus()}
 		case <-tick.C:
+			in := inExec(progress) // read before the position: a stale position with a fresh flag must not look stuck
 			u, k, ok := readProgress(progress)
+			if !in {
+				// generating inputs (reference encoders, reflect type construction) or between executions,
+				// not inside the code under test: the watchdog's clock does not run. A worker that stays
+				// outside for 20 budgets is a harness problem.
+				lastChange = time.Now()
+				cpuAtTwoThirds = -2
+				if ok && (u != lastU || k != lastK) {
+					lastU, lastK = u, k
+					outsideSince = time.Now()
+				} else if time.Since(outsideSince) > 20*batchBudget {
+					cmd.Process.Kill()
+					<-done
+					return exitInfo{class: "harness", stderr: "worker made no progress outside the code under test for " + (20 * batchBudget).String()}
+				}
+				continue
+			}
+			outsideSince = time.Now()
 			if ok && (u != lastU || k != lastK) {
 				lastU, lastK = u, k
 				lastChange = time.Now()
